@@ -135,9 +135,9 @@ func lcShow(v *string) string {
 }
 
 func genLocale(g *h.Gen) {
-	pool := []string{"", "C", "POSIX", "en_US", "en_US.UTF-8", "de_DE.ISO8859-15@euro", "ru_RU.KOI8-R", "ja_JP.EUC-JP", "xx_XX.NOSUCH"}
+	pool := []string{"", "C", "POSIX", "en_US", "en_US.UTF-8", "de_DE.ISO8859-15@euro", "ru_RU.KOI8-R", "ja_JP.EUC-JP", "xx_XX.NOSUCH", "C.UTF-8", "POSIX.ISO8859-1"}
 	if g.Thorough() {
-		pool = append(pool, "zh_CN.GBK", "de_DE.ISO8859-1", "en_US.utf8", "de_DE@euro", "C.UTF-8", "POSIX.ISO8859-1", ".KOI8-R", "a.b.c", "x@y.z",
+		pool = append(pool, "zh_CN.GBK", "de_DE.ISO8859-1", "en_US.utf8", "de_DE@euro", "POSIX.UTF-8", "C.KOI8-R", ".KOI8-R", "a.b.c", "x@y.z",
 			"en_US.", "en_US.@euro", "c", "posix", "ja_JP.SJIS", "zh_TW.Big5", "en_US.US-ASCII", "C@x", "@", ".", "tr_TR.ISO8859-9", "el_GR.ISO8859-7@euro")
 	}
 	var states []*string
